@@ -343,7 +343,7 @@ type c01Config struct {
 
 func c01Pipeline(c *ctx) {
 	c.R.Rule = "the real fabio binary against a fake Consul agent: generated histories of registry steps (register/deregister instances with urlprefix tags + options, check flips, added/removed checks, serfHealth flips, node/service maintenance, KV manual commands; bursts of several steps) under {checksRequired one, all} x {status [passing], [passing,warning]}; after every logical barrier /api/routes must equal the model (healthy tagged instances, then manual commands on top, reference weights); a poller checks that an instance that became unhealthy never reappears without being healed. evaluations = barriers checked; non-trivial = barrier after a step that changed the expected table; distinct by expected table text"
-	cfgs := []c01Config{{"one", []string{"passing"}, nil}, {"all", []string{"passing", "warning"}, nil}}
+	cfgs := []c01Config{{"one", []string{"passing"}, nil}, {"all", []string{"passing", "warning"}, []string{"-registry.consul.serviceMonitors", "4"}}}
 	if c.thorough() {
 		cfgs = append(cfgs, c01Config{"all", []string{"passing"}, []string{"-registry.consul.serviceMonitors", "4"}},
 			c01Config{"one", []string{"passing", "warning"}, nil},
@@ -370,6 +370,7 @@ func c01History(c *ctx, ci int, cf c01Config, nbar int) {
 		return
 	}
 	defer rg.close()
+	rg.agent.SetDefaultWait(2 * time.Second)
 	strict := cf.Required == "all"
 	r := c.rng(int64(500 + ci))
 	m := &c01Model{nodes: map[string]*fakeconsul.Node{}, svcs: map[string]*c01Svc{}}
@@ -568,6 +569,31 @@ func c01History(c *ctx, ci int, cf c01Config, nbar int) {
 			if e.healedBefore.IsZero() && healthyNow[e.dst] {
 				e.healedBefore = pushTime // healed by the step pushed now: later sightings are legitimate
 			}
+		}
+		if b%25 == 24 {
+			// a transient catalog failure while fabio builds the configuration for the new state, followed by
+			// quiescence: the table must still converge (bounded: the fake agent's blocking queries return after 2s)
+			rg.agent.FailNextCatalog(1 + r.Intn(2))
+			push()
+			pushManual()
+			want := m.expected(cf.Status, strict)
+			dl := time.Now().Add(12 * time.Second)
+			var last string
+			for {
+				got, err := rg.routes()
+				if err == nil {
+					if last = c01Compare(want, got); last == "" {
+						break
+					}
+				}
+				if time.Now().After(dl) {
+					c.R.Violate("c01:table-does-not-converge-after-catalog-failure", fmt.Sprintf("config checksRequired=%s: 12s after a transient catalog failure (registry quiescent, blocking queries time out every 2s) the table still differs:\n%s", cf.Required, last), map[string]any{"steps": steps})
+					return
+				}
+				time.Sleep(100 * time.Millisecond)
+			}
+			rg.agent.FailNextCatalog(0) // failures the service monitor did not run into must not leak into the next step
+			c.R.Count("catalog_failure_recoveries", 1)
 		}
 		push()
 		pushManual()
